@@ -28,6 +28,9 @@ static void finish_mainloop(void)
 #include <setjmp.h>
 static jmp_buf fuzz_jb; static int fuzz_phase; static const uint8_t* fuzz_d; static size_t fuzz_n;
 #endif
+/* stack position of the caller: address of a local in a function that is never inlined */
+static __attribute__((noinline)) uintptr_t vp_sp_probe(void) { volatile char c = 0; (void)c; return (uintptr_t)&c; }
+
 static ssize_t lst_recv(int fd, void* buf, size_t n, int flags)
 {
 #ifdef LST_FUZZ
@@ -35,6 +38,20 @@ static ssize_t lst_recv(int fd, void* buf, size_t n, int flags)
     longjmp(fuzz_jb, 1);
 #endif
     budget_stop();
+    {   /* the receive loop lives in main(): its stack pointer at this call must not drift from datagram to datagram
+         * (an allocation per iteration that is never released ends in stack exhaustion on a long stream) */
+        static uintptr_t sp_base; uintptr_t sp = vp_sp_probe();
+        if (g_fed == 4) sp_base = sp;
+        if (g_fed > 4 && sp_base > sp && sp_base - sp > 16384) {
+            fprintf(stderr, "VP-STACK: the listener's stack grew by %lu bytes over %ld datagrams (unreleased per-datagram allocation)\n", (unsigned long)(sp_base - sp), g_fed - 4);
+            _exit(EX_STACK);
+        }
+    }
+    if (g_seq && g_seq->repeat && !g_in_sentinel) {    /* soak: keep the captured output from filling the pipe; only the sentinel's line is judged */
+        fflush(stdout);
+        static char junk[65536]; int fl = fcntl(g_out_rd, F_GETFL); fcntl(g_out_rd, F_SETFL, fl | O_NONBLOCK);
+        while (read(g_out_rd, junk, sizeof junk) > 0) {}
+    }
     if (!feed_next()) finish_mainloop();
     return recv(fd, buf, n, flags);
 }
